@@ -39,6 +39,7 @@ def templates():
     i = keras.Input((4, 4, 2))
     y = L.DepthwiseConv2D(2, name="dw")(i)
     y = L.ReLU(name="r")(y)
+    y = L.DepthwiseConv2D(1, use_bias=False, name="dw_nobias")(y)
     y = L.Conv2D(2, 1, use_bias=False, padding="same", name="c2")(y)
     y = L.GlobalAveragePooling2D(name="g")(y)
     y = L.Dense(2, activation="relu", name="d")(y)
